@@ -174,20 +174,27 @@ PROPS["C12"] = dict(
 
 PROPS["C17"] = dict(
     module="c17",
-    bounds=("n in {4,5} arbitrary u32 positions (any order, duplicates, zero sentinels for ends) bounded by the concrete text length "
-            "in {63,64,100,128} (including positions equal to the text length); every lookup history of length 3 over indices 0..=n+1"),
-    outside="n > 5; text lengths not listed; more than 256 distinct positions (second select sample); YamlIndex wrappers (thin, read not encoded)",
-    assumptions=["AVX2 block popcount path modelled; in-word select on the CTZ path"],
+    bounds=("n in {4,5,6} arbitrary u32 positions (monotone with duplicates; zero sentinels for ends; non-monotone -> dense fallback) bounded by the concrete "
+            "text length in {63,64,100,128} (including positions equal to the text length); one-step induction over lookup histories: ANY cursor state satisfying "
+            "the representation invariant (seeded through the verif-hooks setter), any lookup index 0..=n+1, answer + invariant re-established; plus every "
+            "3-lookup history from the fresh state on n=4"),
+    outside="n > 6; text lengths not listed; more than 256 distinct positions (second select sample); YamlIndex wrappers (thin, read not encoded)",
+    assumptions=["AVX2 block popcount path modelled; select_in_word replaced by its loop-free contract (decided in C02)",
+                 "the representation invariant written in the harness (inv) is what makes the induction sound; it is checked on the constructor's state"],
     harnesses=[
-        H("c17_open3_n4_tl100", timeout=900, unwindset=EFU, bounds="n=4, text_len 100, positions < 100"),
-        H("c17_open3_n5_tl128_max127", timeout=1800, unwindset=EFU, tier="thorough", bounds="n=5, text_len 128"),
-        H("c17_open3_n4_tl64_max63", timeout=900, unwindset=EFU, bounds="n=4, text_len 64, positions < 64"),
-        H("c17_open3_n4_tl100_eof", timeout=900, unwindset=EFU, bounds="n=4, text_len 100, positions <= 100"),
-        H("c17_open3_n4_tl64_eof", timeout=900, unwindset=EFU, bounds="n=4, text_len 64, positions <= 64"),
-        H("c17_end3_n4_tl100", timeout=900, unwindset=EFU, bounds="ends n=4, text_len 100"),
-        H("c17_end3_n5_tl128", timeout=1800, unwindset=EFU, tier="thorough", bounds="ends n=5, text_len 128"),
-        H("c17_end3_n4_tl64", timeout=900, unwindset=EFU, bounds="ends n=4, text_len 64"),
-        H("c17_end3_n4_tl63", timeout=900, unwindset=EFU, tier="thorough", bounds="ends n=4, text_len 63"),
+        H("c17_open_step_n4_tl100", timeout=1200, unwindset=EFU, bounds="starts, n=4, text_len 100, positions < 100"),
+        H("c17_open_step_n5_tl128", timeout=1800, unwindset=EFU, tier="thorough", bounds="starts, n=5, text_len 128"),
+        H("c17_open_step_n4_tl64", timeout=1200, unwindset=EFU, bounds="starts, n=4, text_len 64, positions < 64"),
+        H("c17_open_step_n6_tl100", timeout=2700, unwindset=EFU, tier="thorough", bounds="starts, n=6, text_len 100"),
+        H("c17_open_step_n4_tl100_eof", timeout=1200, unwindset=EFU, bounds="starts, n=4, text_len 100, positions <= 100"),
+        H("c17_open_step_n4_tl64_eof", timeout=1200, unwindset=EFU, bounds="starts, n=4, text_len 64, positions <= 64"),
+        H("c17_end_step_n4_tl100", timeout=1200, unwindset=EFU, bounds="ends, n=4, text_len 100"),
+        H("c17_end_step_n5_tl128", timeout=1800, unwindset=EFU, tier="thorough", bounds="ends, n=5, text_len 128"),
+        H("c17_end_step_n4_tl64", timeout=1200, unwindset=EFU, bounds="ends, n=4, text_len 64"),
+        H("c17_end_step_n4_tl63", timeout=1200, unwindset=EFU, tier="thorough", bounds="ends, n=4, text_len 63"),
+        H("c17_dense_fallback_n4", timeout=600, unwindset=EFU, bounds="non-monotone n=4"),
+        H("c17_open3_n4_tl100", timeout=2700, unwindset=EFU, tier="thorough", bounds="3-lookup histories from the fresh state, n=4"),
+        H("c17_end3_n4_tl100", timeout=2700, unwindset=EFU, tier="thorough", bounds="3-lookup histories from the fresh state, ends n=4"),
         H("c17_witness_must_fail", kind="witness", tier="thorough", timeout=600, unwindset=EFU),
     ],
 )
